@@ -105,6 +105,10 @@ func mutate(class string, seed int64, orig []byte, other func(r *rand.Rand) []by
 			return orig
 		}
 		return clone(orig[:r.Intn(n)])
+	case "vertail":
+		// a NUL-delimited version string after the end of a binary: what go/binary's VersionFromContent option searches the whole content for
+		vs := []string{"v1.2.3", "1.2.3-rc1+meta", "v0.0.0-20200101000000-abcdefabcdef", "v10.20.30-\xff", "\x00L9.8.7"}
+		return append(append(clone(orig), 0), append([]byte(vs[r.Intn(len(vs))]), 0)...)
 	case "bitflip1", "bitflipN":
 		if n == 0 {
 			return []byte{byte(r.Intn(256))}
